@@ -8,7 +8,7 @@
        callbacks are parameters of the machines, the theorems hold for all of
        them. *)
 From RxVerif Require Import Base.Prelude Ops.Machine Ops.MachineFacts Ops.ComposeFacts
-  Core.AutoDetach Core.AutoDetachFacts.
+  Core.AutoDetach Core.AutoDetachFacts Core.ObserverBase Core.ObserverBaseFacts.
 
 Theorem C01_autodetach_grammar : forall A (h : list (call A)) (st : bool),
   wellformed (delivered (snd (run_calls st h))) = true.
@@ -49,6 +49,38 @@ Theorem C01_nothing_after_source_terminal : forall A B (m : mealy A B) xs s k (t
 Proof. exact @exec_from_ignores_after_terminal. Qed.
 Print Assumptions C01_nothing_after_source_terminal.
 
+(* (d) the Observer base class (observer/observer.py; base of Subject, ScheduledObserver, what users pass to
+   subscribe()): the same statements over ALL call forests, and its relation to the wrapper: same stopped flag,
+   same effects once the wrapper's subscription disposal is erased *)
+Theorem C01_observer_base_grammar : forall A (h : list (call A)) (st : bool),
+  wellformed (delivered (snd (ob_run_calls st h))) = true.
+Proof. exact @observer_base_grammar. Qed.
+Print Assumptions C01_observer_base_grammar.
+
+Theorem C01_observer_base_silent_once_stopped : forall A (h : list (call A)),
+  delivered (snd (ob_run_calls true h)) = [].
+Proof. exact @observer_base_silent_once_stopped. Qed.
+Print Assumptions C01_observer_base_silent_once_stopped.
+
+Theorem C01_observer_base_no_call_after_terminal : forall A (h1 h2 : list (call A)),
+  ended (delivered (snd (ob_run_calls false h1))) = true ->
+  delivered (snd (ob_run_calls (fst (ob_run_calls false h1)) h2)) = [].
+Proof. exact @observer_base_no_call_after_terminal. Qed.
+Print Assumptions C01_observer_base_no_call_after_terminal.
+
+Theorem C01_observer_base_is_autodetach_without_subscription : forall A (h : list (call A)) (st : bool),
+  ob_run_calls st h = (fst (run_calls st h), no_subdispose (snd (run_calls st h))).
+Proof. exact @ob_agrees. Qed.
+Print Assumptions C01_observer_base_is_autodetach_without_subscription.
+
+(* as_observer(): a second Observer in front of the first (Core/ObserverBase.v:lay_run_calls, written from
+   `return Observer(self.on_next, self.on_error, self.on_completed)`); with every call made on the view it is
+   one observer again *)
+Theorem C01_as_observer_view_is_an_observer : forall A (h : list (call A)),
+  snd (lay_run_calls false false h) = snd (ob_run_calls false h).
+Proof. exact @as_observer_view_is_an_observer. Qed.
+Print Assumptions C01_as_observer_view_is_an_observer.
+
 (* non-vacuity: a re-entrant history -- on_next whose callback completes and
    then emits again; a second on_completed; on_next after everything *)
 Example C01_witness :
@@ -57,3 +89,14 @@ Example C01_witness :
      Call KCompleted [] false; Call (KNext 4) [] false]))
   = [Next 1; Done].
 Proof. vm_compute. reflexivity. Qed.
+
+(* the same history on the Observer base class; on_error whose handler re-enters with on_next and on_completed *)
+Example C01_observer_base_witness :
+  delivered (snd (ob_run_calls false
+    [Call (KNext 1) [Call KCompleted [Call (KNext 2) [] false] true; Call (KNext 3) [] false] true;
+     Call KCompleted [] false; Call (KNext 4) [] false]))
+  = [Next 1; Done]
+  /\ snd (ob_run_calls false [Call (KError 5) [Call (KNext 2) [] false; Call KCompleted [] false] true;
+                             Call (KFail 6) [] false])
+     = [Deliver (Err 5); Raised 77; FailReturned false].
+Proof. vm_compute. split; reflexivity. Qed.
